@@ -14,7 +14,7 @@ ID = "C20"
 LEVEL = "fault_enumeration"
 BUDGET = {
     "quick": {"runs": 640, "wall": 300, "chunk": 5},
-    "thorough": {"runs": 6000, "wall": 3000, "chunk": 20},
+    "thorough": {"runs": 15000, "wall": 3400, "chunk": 20},
 }
 RULE = (
     "each run draws a world (random program, some leaves pre-loaded with .grad) and a valid backward or "
